@@ -89,7 +89,7 @@ var pkgErr = regexp.MustCompile(`(?m)^(?:vet: )?gen/(p\d+)/`)
 
 func main() {
 	run := ev.New("C02", ev.ArgTier(), "exploration")
-	run.Rule("random valid multi-file IDL programs (core pool of verif/idl; all type constructors, modifiers, defaults, typedef chains, includes, enums, nested containers) are compiled with the compiler under test; for every struct / union / exception / <method>_args / <method>_result type x {binary, compact, json} x N model-generated values: emitted Write -> independent schema-less decode == encoding the IDL declares; reference-written encoding (shuffled fields, unknown fields) -> emitted Read == value; Read(Write(v)) == v; missing required field rejected; union with 0 or 2 members never written. plus a directed sub-pool: the same pools with a typedef of an enum declared in an included file used from another file as the type of fields / arguments / constants / container elements and keys whose defaults name enum values. distinct = distinct (feature vector of the program) + distinct (type kind, protocol) pairs exercised")
+	run.Rule("random valid multi-file IDL programs (core pool of verif/idl; all type constructors, modifiers, defaults, typedef chains, includes, enums, nested containers) are compiled with the compiler under test; for every struct / union / exception / <method>_args / <method>_result type x {binary, compact, json} x N model-generated values: emitted Write -> independent schema-less decode == encoding the IDL declares; reference-written encoding (shuffled fields, unknown fields) -> emitted Read == value; Read(Write(v)) == v; missing required field rejected; union with 0 or 2 members never written. plus a directed sub-pool: root file and an include declare a struct of the same bare name with different fields, the root file writes struct literals of the included type as constants and inside list / map defaults of fields that are left at their declared default. plus a directed sub-pool: the same pools with a typedef of an enum declared in an included file used from another file as the type of fields / arguments / constants / container elements and keys whose defaults name enum values. distinct = distinct (feature vector of the program) + distinct (type kind, protocol) pairs exercised")
 	run.Assume("Apache Thrift Go library (protocols) is correct: it is a dependency, not the subject")
 	run.Assume("verif/idl model + verif/tvalue schema-less codec + verif/gocodec reflection mapping (fields by declaration order, emitted IsSet<F> defines 'set' of optional fields)")
 	nProgs, perBatch, values := 16, 8, 12
@@ -134,6 +134,26 @@ func main() {
 	aliasFrom := len(batches) // index of the first directed batch
 	batches = append(batches, aspecs[:nAlias/2], aspecs[nAlias/2:])
 	nProgs += nAlias
+	// second directed sub-pool (verif/idl/samenamestruct.go; own stream, own batches):
+	// the root file and a file it includes declare a struct of the same bare name
+	// with different fields; the root file writes struct literals of the INCLUDED
+	// type as constants and inside list / map defaults of fields, which the
+	// harness leaves at their declared default.
+	nSame := 4
+	if run.Thorough() {
+		nSame = 16
+	}
+	srng := run.Rand("c02-same-named-struct-literals")
+	var sspecs []progSpec
+	for i := 0; i < nSame; i++ {
+		cfg := []string{"core", "core+shadow"}[i%2] + "+" + idl.SameNameStructFlag
+		sspecs = append(sspecs, progSpec{Sub: fmt.Sprintf("p%d", nProgs+i), Seed: srng.Int63(), Cfg: cfg})
+	}
+	sameFrom := len(batches)
+	batches = append(batches, sspecs[:nSame/2], sspecs[nSame/2:])
+	nProgs += nSame
+	sameBad := 0
+	var sameProblems []string
 	var wg sync.WaitGroup
 	sem := make(chan struct{}, 6)
 	var mu sync.Mutex
@@ -152,7 +172,12 @@ func main() {
 			mu.Lock()
 			defer mu.Unlock()
 			probMu.Lock()
-			if bi >= aliasFrom {
+			if bi >= sameFrom {
+				sameBad += rej + unc
+				if len(sameProblems) < 6 {
+					sameProblems = append(sameProblems, batchProblems[bi]...)
+				}
+			} else if bi >= aliasFrom {
 				aliasBad += rej + unc
 				if len(aliasProblems) < 6 {
 					aliasProblems = append(aliasProblems, batchProblems[bi]...)
@@ -223,8 +248,13 @@ func main() {
 		// class every program of that sub-pool carries (on top of a core program)
 		run.Violation("C02:program-not-compilable:typedef_of_included_enum_with_enum_value_defaults", fmt.Sprintf("%d of %d valid programs that use a typedef of an included file's enum as the declared type of defaulted fields / arguments / constants / container elements were rejected by the compiler or their emitted Go does not build (replay: idl.GenerateNamed(seed, cfg)): %s", aliasBad, nAlias, strings.Join(aliasProblems, " | ")), map[string]interface{}{"problems": aliasProblems})
 	}
-	if rejected+uncompilable+aliasBad > nProgs/2 {
-		run.Inconclusive(fmt.Sprintf("%d of %d programs could not be compiled (see C11)", rejected+uncompilable+aliasBad, nProgs))
+	run.Set("programs_with_same_named_struct_in_root_and_include", nSame)
+	run.Set("same_named_struct_programs_not_compilable", sameBad)
+	if sameBad > 0 {
+		run.Violation("C02:program-not-compilable:same_struct_name_in_root_and_include_with_struct_literals", fmt.Sprintf("%d of %d valid programs whose root file and an include declare a struct of the same bare name, with struct literals of the included type in constants and container defaults, were rejected by the compiler or their emitted Go does not build (replay: idl.GenerateDirected(seed, cfg)): %s", sameBad, nSame, strings.Join(sameProblems, " | ")), map[string]interface{}{"problems": sameProblems})
+	}
+	if rejected+uncompilable+aliasBad+sameBad > nProgs/2 {
+		run.Inconclusive(fmt.Sprintf("%d of %d programs could not be compiled (see C11)", rejected+uncompilable+aliasBad+sameBad, nProgs))
 	}
 	os.Exit(run.Finish())
 }
@@ -246,7 +276,7 @@ func runBatch(bi int, bs []progSpec, values int, seed int64) ([]*progResult, int
 	rejected, uncompilable := 0, 0
 	var live []progSpec
 	for _, ps := range bs {
-		prog := idl.GenerateNamed(ps.Seed, ps.Cfg)
+		prog := idl.GenerateDirected(ps.Seed, ps.Cfg)
 		src := filepath.Join(h.Dir, "src", ps.Sub)
 		if _, err := idl.WriteProgram(prog, src, idl.DefaultStyle()); err != nil {
 			return nil, 0, 0, err
